@@ -89,7 +89,7 @@ theorem C14_text_template_counterexample :
     has scheme http or https (any case); for an unknown binding it is blanked. -/
 theorem C14_location (binding : String) (loc loc' : Bytes) (h : checkEndpointLocation binding loc = .ok loc') :
     (knownBindings.contains binding = true →
-      loc' = loc ∧ hasCTL loc = false ∧
+      loc' = loc ∧ hasCTL (cutFragment loc) = false ∧
       ∃ scheme rest, getScheme (cutFragment loc) = some (scheme, rest) ∧ (lower scheme = http ∨ lower scheme = https)) ∧
     (knownBindings.contains binding = false → loc' = []) := by
   unfold checkEndpointLocation at h
